@@ -16,8 +16,18 @@ def js(s):
 
 LONG = "abcdefghijklmnopqrstuvwxyz"
 LONGU = "é" * 19
+MIXEDU = "aé" + "b" * 20
+TAILU = "b" * 20 + "世😀"
 def u16(s):
-    return "".join("%04x" % ord(c) for c in s)
+    out = []
+    for c in s:
+        o = ord(c)
+        if o >= 0x10000:
+            o -= 0x10000
+            out += [0xd800 + (o >> 10), 0xdc00 + (o & 0x3ff)]
+        else:
+            out.append(o)
+    return "".join("%04x" % x for x in out)
 
 # class name -> (canon, go-export canon, [representations])
 JS_CLASSES = {
@@ -40,7 +50,14 @@ JS_CLASSES = {
                js('"a\\u00e9".slice(1)'), js('"e\\u0301".normalize()')]),
     "long": ("s:" + u16(LONG), None, [js('"%s"' % LONG), "go:str:" + hx(LONG), js('"%s"+"%s"' % (LONG[:13], LONG[13:])),
              "go:u16:" + u16(LONG), js('"%s".split("").join("")' % LONG)]),
-    "longu": ("s:" + u16(LONGU), None, ["go:str:" + hx(LONGU), js('"\\u00e9".repeat(19)'), "go:u16:" + u16(LONGU)]),
+    # > 16 bytes of non-ASCII UTF-8: ToValue keeps these as UNSCANNED importedStrings until something scans them
+    "longu": ("s:" + u16(LONGU), None, ["go:str:" + hx(LONGU), js('"\\u00e9".repeat(19)'), "go:u16:" + u16(LONGU),
+              "go:cat:" + hx(LONGU[:10]) + "+" + hx(LONGU[10:]), "go:str:" + hx(LONGU),
+              js("JSON.parse('\"" + LONGU + "\"')"), js('Array(20).join("\\u00e9")')]),
+    "mixedu": ("s:" + u16(MIXEDU), None, ["go:str:" + hx(MIXEDU), js('"a\\u00e9"+"b".repeat(20)'), "go:u16:" + u16(MIXEDU),
+               "go:cat:" + hx(MIXEDU[:1]) + "+" + hx(MIXEDU[1:]), "go:str:" + hx(MIXEDU)]),
+    "tailu": ("s:" + u16(TAILU), None, ["go:str:" + hx(TAILU), js('"b".repeat(20)+"\\u4e16\\ud83d\\ude00"'), "go:u16:" + u16(TAILU),
+              "go:cat:" + hx(TAILU[:20]) + "+" + hx(TAILU[20:])]),
     "badutf": ("s:fffd" + u16("a" * 20), None, ["go:str:ff" + hx("a" * 20), "go:str:fe" + hx("a" * 20),
                js('"\\ufffd"+"a".repeat(20)')]),
     "empty": ("s:", None, [js('""'), "go:str:", js('"a".slice(1)'), js("String()")]),
@@ -67,7 +84,7 @@ JS_CLASSES["symreg2"] = ("y", "*", [js('Symbol.for("")'), js('Symbol.for(String(
 SYM_CLASSES += ["symhas", "symreg2"]
 IDENTITY = {"obj", "obj2", "fn", "sym", "sym2", "symA", "symB", "symC", "symD"}   # fresh identity per evaluation
 
-KINDS = {"raw": "r", "sym": "r", "map": "rekvyfo", "set": "rekvyfo"}
+KINDS = {"raw": "r", "sym": "rra", "map": "rekvyfo", "set": "rekvyfo"}
 
 
 class Case:
@@ -114,6 +131,12 @@ def gen_pool(rng, mode, npool=12):
     names = SYM_CLASSES if mode == "sym" else [n for n in JS_CLASSES if n not in ("symA", "symB", "symC", "symD", "symhas", "symreg2")]
     names = names[:]
     rng.shuffle(names)
+    if mode != "sym" and rng.random() < 0.4:
+        # every run must contain pools where an UNSCANNED imported non-ASCII string sits next to the equal JS-built one
+        # (hash / SameAs of importedString must scan first); the corpus does this deterministically as well
+        pick = rng.choice(["longu", "mixedu", "tailu"])
+        names.remove(pick)
+        names.insert(0, pick)
     for name in names:
         if len(pool) >= npool:
             break
@@ -124,6 +147,13 @@ def gen_pool(rng, mode, npool=12):
             pool.append((rep, rep, reprs[0]))
             for _ in range(k - 1):
                 pool.append((rep, rep, "ref:%d" % rep))
+        elif name in ("longu", "mixedu", "tailu") and npool - len(pool) >= 2:
+            imp = [r for r in reprs if r.startswith(("go:str:", "go:cat:"))]
+            oth = [r for r in reprs if not r.startswith(("go:str:", "go:cat:"))]
+            chosen = [rng.choice(imp), rng.choice(oth)] + [rng.choice(reprs) for _ in range(max(0, k - 2))]
+            rng.shuffle(chosen)
+            for r in chosen:
+                pool.append((rep, rep, r))
         else:
             for r in (rng.sample(reprs, k) if k <= len(reprs) else [rng.choice(reprs) for _ in range(k)]):
                 pool.append((rep, rep, r))
@@ -149,7 +179,7 @@ def gen_ops(rng, mode, npool, maxlen=40):
             free = [j for j in range(3) if j != co]
             j = rng.choice(free)
             kind = rng.choice(kinds)
-            if kind in "fo":
+            if kind in "foa":
                 if co is not None or j in slots and False:
                     kind = "r"
                 else:
@@ -178,7 +208,7 @@ def gen_ops(rng, mode, npool, maxlen=40):
                 else:
                     ops.append("z")
             else:
-                vs = "R" if mode == "raw" else ("RAK" if mode == "sym" else "RAKG")
+                vs = {"raw": "R", "sym": "RAKOPTD", "map": "RAKGM", "set": "RAKGMS"}[mode]
                 ops.append("e" + rng.choice(vs))
     return ops
 
@@ -190,9 +220,13 @@ def gen_case(rng, mode=None, maxlen=40):
 
 
 # ----------------------------------------------------------------------------------------------- python spec oracle
-def oracle(case, ops=None):
+SIG_ASSIGN_LIVE = "sym/n[assign]/live-iteration-instead-of-key-snapshot"
+
+
+def oracle(case, ops=None, assign_live=False):
     """Insertion-ordered list keyed by class; returns expected tokens 'K<rep>:v<n>' etc. in model notation, plus
-    per-op iterator kind (for masking)."""
+    per-op iterator kind (for masking).  `assign_live` replaces the spec semantics of the Object.assign iterator (key
+    snapshot) by live orderedMap iteration; used only to classify a deviation, never as the judge."""
     ops = case.ops if ops is None else ops
     rep = [p[0] for p in case.pool]
     setmode = case.mode == "set"
@@ -248,6 +282,24 @@ def oracle(case, ops=None):
                 if it[1]:
                     out.append(("done", it[2]))
                     continue
+                if it[2] == "a" and not assign_live:
+                    # Object.assign: [[OwnPropertyKeys]] snapshot when it starts; each key still present is visited with
+                    # its current value; keys added meanwhile are not (ECMA-262 20.1.2.1 / 7.3.26 CopyDataProperties)
+                    if len(it) == 3:
+                        it.append([kk for kk, _ in data if kk is not None])
+                    res = None
+                    while it[3]:
+                        kk = it[3].pop(0)
+                        i = find(kk)
+                        if i is not None:
+                            res = ent(i)
+                            break
+                    if res is None:
+                        it[1] = True
+                        out.append(("done", "a"))
+                    else:
+                        out.append((res, "a"))
+                    continue
                 while it[0] < len(data) and data[it[0]][0] is None:
                     it[0] += 1
                 if it[0] >= len(data):
@@ -266,7 +318,8 @@ def oracle(case, ops=None):
                     its[j][1] = True
                     out.append(("ok", None))
             elif c == "e":
-                out.append(("[" + "|".join(ent(i) for i in range(len(data)) if data[i][0] is not None) + "]", "G" if rest == "G" else None))
+                out.append(("[" + "|".join(ent(i) for i in range(len(data)) if data[i][0] is not None) + "]",
+                            {"G": "G", "S": "G", "M": "M"}.get(rest)))
             else:
                 out.append(("err:op", None))
         except (ValueError, IndexError):
@@ -278,6 +331,18 @@ def expected_impl_token(case, tok, kind):
     """What the harness should print (after canon->K mapping) for oracle token `tok` produced by an iterator of `kind`."""
     if kind is None or tok in ("done",) or tok.startswith("err"):
         return tok
+    if kind == "M":
+        # Go map: order lost, keys must have distinct primitive Go images, else the comparison is skipped (None)
+        items = tok[1:-1].split("|") if tok != "[]" else []
+        outi, seen = [], set()
+        for it in items:
+            k, v = it.split(":")
+            g = case.gcanon_of_rep[int(k[1:])]
+            if g in ("*", "nil") or g in seen:
+                return None
+            seen.add(g)
+            outi.append(g + ":" + v)
+        return "{" + "|".join(sorted(outi)) + "}"
     if kind == "G":
         items = tok[1:-1].split("|") if tok != "[]" else []
         outi = []
@@ -380,8 +445,11 @@ def check_inv(d, hash_of_key):
 
 
 # ----------------------------------------------------------------------------------------------- running
-def run_one(ctx, exe, line, timeout=30):
+def run_one(ctx, exe, line, timeout=60, retry=True):
     rc, out, err = ctx.run_lines([exe], [line], timeout=timeout)
+    if not out and rc == 124 and retry:
+        # a slow machine must not look like a hang: retry once with a long timeout before calling it one
+        rc, out, err = ctx.run_lines([exe], [line], timeout=max(240, 4 * timeout))
     if out:
         return out[0]
     return "CRASH rc=%d %s" % (rc, "hang(timeout)" if rc == 124 else err[-200:].replace("\n", " "))
@@ -415,17 +483,23 @@ def run_sharded(ctx, exe, lines, shards=16, timeout=600):
     return res
 
 
-def judge(case, impl_line, ops=None):
+def judge(case, impl_line, ops=None, assign_live=False):
     """Property oracle: compare the implementation's results with the spec oracle. Returns (index, expected, got) of the
     first observable disagreement or None."""
     ops = case.ops if ops is None else ops
-    exp = oracle(case, ops)
+    exp = oracle(case, ops, assign_live)
     if impl_line.startswith(("ERR", "PANIC", "CRASH")):
         return (0, "results", impl_line[:200])
     res, _, _ = split_out(impl_line, len(ops))
     for i in range(len(ops)):
         want = expected_impl_token(case, exp[i][0], exp[i][1])
         got = map_keys(case, res[i]) if i < len(res) else "<missing>"
+        if exp[i][1] == "M":
+            got = res[i] if i < len(res) else "<missing>"
+            if want is None:
+                if got.startswith(("{", "exc:")):
+                    continue
+                want = "{...}"
         if exp[i][1] == "G":
             got = res[i] if i < len(res) else "<missing>"
             # exported keys without a primitive Go image (objects, symbols, bigints) are wildcards
@@ -444,22 +518,33 @@ def shape(t):
 def signature(case, ops, bad):
     i, want, got = bad
     op = ops[i] if i < len(ops) else "?"
-    return "%s/%s/exp=%s/got=%s" % (case.mode, re.sub(r"[\d.]+", "", op), shape(want), shape(got))
+    opn = re.sub(r"[\d.]+", "", op)
+    if op.startswith("n"):
+        try:
+            k = oracle(case, ops)[i][1]
+            if k == "a":
+                opn = "n[assign]"
+        except Exception:
+            pass
+    return "%s/%s/exp=%s/got=%s" % (case.mode, opn, shape(want), shape(got))
 
 
 def shrink_and_report(ctx, h, case, bad):
     crash = bad[1] == "results"
     def fails(ops):
-        return judge(case, run_one(ctx, h, case.line(ops), timeout=20), ops) is not None
+        return judge(case, run_one(ctx, h, case.line(ops), timeout=30, retry=False), ops) is not None
     ops = list(case.ops) if crash else list(case.ops[:bad[0] + 1])
     try:
         if fails(ops):
             ops = ctx.ddmin(ops, fails)
     except Exception:
         pass
-    out = run_one(ctx, h, case.line(ops), timeout=20)
+    out = run_one(ctx, h, case.line(ops), timeout=60)
     b2 = judge(case, out, ops) or bad
     sig = signature(case, ops, b2)
+    if sig.startswith("sym/n[assign]/") and not out.startswith("CRASH") and judge(case, out, ops, assign_live=True) is None:
+        # the only deviation is that Object.assign iterated the symbol table live instead of over a key snapshot
+        sig = SIG_ASSIGN_LIVE
     exp = [t for t, _ in oracle(case, ops)]
     ctx.violation(sig, "%s: op %s expected %s, implementation gave %s (ops: %s)" % (case.mode, ops[b2[0]] if b2[0] < len(ops) else "?", b2[1], b2[2], " ".join(ops)),
                   {"kind": "history", "case": case.to_json(), "ops": ops, "line": case.line(ops), "expected": exp,
@@ -478,7 +563,7 @@ def corpus_cases():
     return out
 
 
-N_THEOREMS = 9
+N_THEOREMS = 16
 
 
 def main(ctx):
@@ -500,17 +585,17 @@ def main(ctx):
     rng = ctx.rng
     cases = corpus_cases()
     ncorp = len(cases)
-    ngen = 2500 if quick else 40000
+    ngen = 2000 if quick else 40000
     for i in range(ngen):
         cases.append(gen_case(rng, maxlen=40 if i % 10 else 120))
     lines = [c.line() for c in cases]
     ctx.log("running %d cases (%d corpus)" % (len(cases), ncorp))
-    impl = run_sharded(ctx, h, lines, timeout=120 if quick else 900)
+    impl = run_sharded(ctx, h, lines, timeout=300 if quick else 1200)
     mod = run_sharded(ctx, model, lines, shards=8) if model else [None] * len(lines)
 
     stats = {"modes": {}, "ops": {}, "iter_kinds": {}, "len_hist": {}, "collision_cases": 0, "clear_during_iter": 0,
              "delete_during_iter": 0, "insert_during_iter": 0, "max_chain": 0, "max_entries": 0}
-    n_state_bad = n_spec_bad = n_inv_bad = n_viol = 0
+    n_state_bad = n_spec_bad = n_inv_bad = n_viol = n_known = 0
     first_state = first_inv = first_spec = None
     for ci, case in enumerate(cases):
         ops = case.ops
@@ -537,6 +622,13 @@ def main(ctx):
         # 1. property: implementation vs spec oracle
         bad = judge(case, impl[ci] or "CRASH")
         if bad is not None:
+            if (case.mode == "sym" and ctx.known_signature(SIG_ASSIGN_LIVE) and not (impl[ci] or "CRASH").startswith("CRASH")
+                    and judge(case, impl[ci], assign_live=True) is None):
+                # known finding: exactly the live-instead-of-snapshot deviation of Object.assign; shrink the first one only
+                n_known += 1
+                if n_known == 1:
+                    shrink_and_report(ctx, h, case, bad)
+                continue
             n_viol += 1
             if n_viol <= 3:
                 shrink_and_report(ctx, h, case, bad)
@@ -569,6 +661,8 @@ def main(ctx):
             exp = oracle(case)
             for oi in range(len(ops)):
                 e = exp[oi][0]
+                if exp[oi][1] == "a":
+                    continue          # Object.assign has snapshot semantics: not an orderedMap iterator of the Lean models
                 if oi >= len(mres) or mres[oi] != e or msres[oi] != e:
                     if not (e.startswith("err") and oi < len(mres) and mres[oi].startswith("err")):
                         n_spec_bad += 1
@@ -588,7 +682,9 @@ def main(ctx):
     def where(f):
         ci, oi, why = f
         return "case %d op %d (%s): %s ; line: %s" % (ci, oi, cases[ci].ops[oi] if oi < len(cases[ci].ops) else "?", why[:500], lines[ci][:700])
-    ctx.obligation("corr:results-equal-spec-oracle", "correspondence", n_viol == 0, "%d cases disagree" % n_viol)
+    ctx.stats["known_finding_cases"] = n_known
+    ctx.obligation("corr:results-equal-spec-oracle", "correspondence", n_viol == 0,
+                   "%d cases disagree (+%d cases showing only the known Object.assign symbol-snapshot finding)" % (n_viol, n_known))
     ctx.obligation("corr:inv-holds-on-real-structure", "correspondence", n_inv_bad == 0, where(first_inv) if first_inv else "Inv checked after every op")
     if model:
         ctx.obligation("corr:state-for-state-vs-lean-mechanism", "correspondence", n_state_bad == 0, where(first_state) if first_state else "all dumps equal")
